@@ -4,8 +4,8 @@
  *   - requires the alignment the real variant needs (aligned8: src,dst % 8 == 0; aligned4: % 4 == 0),
  *   - requires that constants/key/nonce words and `rounds` are the ones of the first kernel call (S0),
  *   - writes dst[i] = src[i] ^ KS(counter)[i] (or KS(counter)[i] for src == NULL) where KS(counter) word w is the
- *     UNINTERPRETED function ksw(counter, w)  -- any interpretation, hence also the real block function, which
- *     kern.c proves equal to the RFC-order reference for every state,
+ *     an ARBITRARY function of the counter (free table IN.ks, see below) -- any interpretation, hence also the real
+ *     block function, which kern.c proves equal to the RFC-order reference for every state,
  *   - increments the 64-bit counter in state[12..13] (proved for the real kernels in kern.c).
  * Property: for every key/nonce/initial counter/source, after the calls
  *     dst[i] == src[i] ^ KS(c0 + i/64)[i % 64]   for all i < total,   S0 == set-up(key, nonce) with counter c0.
@@ -64,23 +64,18 @@ struct in_s {
 	uint8_t dst0[OFFD + TOTAL + 1];
 	uint32_t junk[16];
 	size_t l1, l2, l3;
+	uint32_t ks[(TOTAL + 63) / 64 + 1][16];	/* the abstract key stream: one free block per counter offset */
 };
 #include "verif_in.h"
 
-/* ---- the abstract block function ---- */
-#ifdef REPLAY
-static uint32_t ksw(uint64_t ctr, uint32_t w) {
-	uint64_t z = (ctr + 0x9e3779b97f4a7c15ull) * (2 * (uint64_t)w + 0xbf58476d1ce4e5b9ull);
-	z ^= z >> 29; z *= 0x94d049bb133111ebull; z ^= z >> 32;
-	return ((uint32_t)z);
-}
-#else
-uint32_t __CPROVER_uninterpreted_ksw(uint64_t, uint32_t);
-#define ksw(c, w) __CPROVER_uninterpreted_ksw((c), (w))
-#endif
-static uint8_t ksbyte(uint64_t ctr, size_t i) {
-	return ((uint8_t)(ksw(ctr, (uint32_t)(i / 4)) >> (8 * (i % 4))));
-}
+/* ---- the abstract block function ----
+ * KS(counter) for the fixed key/nonce of a run is an arbitrary function of the counter.  Only counters c0 .. c0+NBMAX-1
+ * may occur (asserted), they are pairwise distinct mod 2^64, so "arbitrary function" == one free 64-byte block per
+ * offset j = counter - c0: the table IN.ks[j][].  (Same device as __CPROVER_uninterpreted_*, but replayable natively and
+ * without the quadratic functional-consistency constraints: 320 applications cost 19 M clauses [measured].) */
+#define NBMAX ((TOTAL + 63) / 64 + 1)
+static uint64_t C0;
+#define KSBYTE(j, i) ((uint8_t)(IN.ks[(j)][(i) / 4] >> (8 * ((i) % 4))))
 
 static struct { unsigned calls; uint32_t s0[16]; size_t rounds0; } LOG;
 
@@ -98,8 +93,11 @@ static void stub_block(struct chacha_context_s *ctx, const uint8_t *src, uint8_t
 		V_ASSERT(ctx->rounds == LOG.rounds0, "rounds identical in every kernel call");
 	}
 	uint64_t c = ((uint64_t)ctx->state[13] << 32) | ctx->state[12];
+	uint64_t j = c - C0;
+	V_ASSERT(j < NBMAX - 1, "block kernel is invoked only with counters c0 .. c0 + ceil(total/64) - 1");
+	if (j >= NBMAX) j = NBMAX - 1;
 	uint8_t blk[64];
-	for (size_t i = 0; i < 64; i++) blk[i] = (uint8_t)((src ? src[i] : 0) ^ ksbyte(c, i));	/* read all, then write: */
+	for (size_t i = 0; i < 64; i++) blk[i] = (uint8_t)((src ? src[i] : 0) ^ KSBYTE(j, i));	/* read all, then write: */
 	for (size_t i = 0; i < 64; i++) dst[i] = blk[i];						/* in place is fine  */
 	c++;
 	ctx->state[12] = (uint32_t)c;
@@ -126,6 +124,7 @@ void harness(void) {
 	uint8_t *ctr = CTRNULL ? NULL : v_buf(IN.ctr, 8);
 	uint64_t c0 = 0;
 	for (int i = 0; i < 8 && !CTRNULL; i++) c0 |= (uint64_t)IN.ctr[i] << (8 * i);
+	C0 = c0;
 
 	uint8_t *dobj = v_buf(IN.dst0, OFFD + TOTAL);
 	uint8_t *dst = dobj + OFFD;
@@ -172,7 +171,7 @@ void harness(void) {
 	for (size_t i = 0; i < TOTAL; i++) {
 		if (i < total) {
 			uint8_t s = (SRCMODE == 2) ? 0 : IN.src[i];
-			V_ASSERT(dst[i] == (uint8_t)(s ^ ksbyte(c0 + i / 64, i % 64)),
+			V_ASSERT(dst[i] == (uint8_t)(s ^ KSBYTE(i / 64, i % 64)),
 			    "output byte i == src[i] ^ KS(counter0 + i/64)[i%64] independent of chunking, alignment, in-place use");
 		} else {
 			V_ASSERT(dst[i] == IN.dst0[OFFD + i], "bytes after the processed length untouched");
